@@ -67,9 +67,12 @@ structure Consistent (mi : MasterIndex) : Prop where
   final : mi.first.final = true
   rest : mi.rest = []
   ent : ∀ e, e ∈ entries mi.first ↔ ∃ id, id ∈ mi.first.ids ∧ e ∈ fileEntries (content id)
+  /-- no blob is pending: `LookupSize` answers from the index files only -/
+  pending : mi.pending = []
 
 /-- a state from which a load gives the right result: `idx[0]` is as in `Consistent`, the other
-    indexes are at most leftovers of an aborted load (final, with an id) -/
+    indexes are at most leftovers of an aborted load (final, with an id); any blobs may be pending
+    (`AddPending` of an upload that was aborted before its pack reached the index) -/
 structure Reloadable (mi : MasterIndex) : Prop where
   wf : WFIdx mi.first
   final : mi.first.final = true
@@ -93,27 +96,27 @@ theorem Reloadable.insert {mi : MasterIndex} (hr : Reloadable content mi) {f : I
 
 theorem new_consistent : Consistent content MasterIndex.new :=
   ⟨⟨fun _ h => by simp [MasterIndex.new, Index.new] at h, fun _ h => by simp [MasterIndex.new, Index.new] at h⟩,
-    rfl, rfl, fun e => by simp [MasterIndex.new, entries, entriesOf, Index.new]⟩
+    rfl, rfl, fun e => by simp [MasterIndex.new, entries, entriesOf, Index.new], rfl⟩
 
 /-- the listing agrees with the content function (ids are content addresses) -/
 def Agrees (fs : List (ID × Option IndexFile)) : Prop := ∀ id f, (id, some f) ∈ fs → f = content id
 
 theorem loadFiles_spec (loaded : List ID) : ∀ (fs : List (ID × Option IndexFile)) (mi mi' : MasterIndex),
     Agrees content fs → loadFiles loaded fs mi = .ok mi' →
-    mi'.first = mi.first ∧ ∃ news, mi'.rest = mi.rest ++ news ∧ (∀ i, i ∈ news → Decoded content i) ∧
+    mi'.first = mi.first ∧ mi'.pending = mi.pending ∧ ∃ news, mi'.rest = mi.rest ++ news ∧ (∀ i, i ∈ news → Decoded content i) ∧
       ∀ id, (∃ i, i ∈ news ∧ id ∈ i.ids) ↔ (id ∈ fs.map (·.1) ∧ id ∉ loaded)
   | [], mi, mi', _, h => by
     simp only [loadFiles, Out.ok.injEq] at h
     subst h
-    exact ⟨rfl, [], by simp, by simp, by simp⟩
+    exact ⟨rfl, rfl, [], by simp, by simp, by simp⟩
   | (id, f) :: fs, mi, mi', ha, h => by
     have ha' : Agrees content fs := fun i g hm => ha i g (List.mem_cons_of_mem _ hm)
     unfold loadFiles at h
     split at h
     · rename_i hl
       have hl' : id ∈ loaded := by simpa using hl
-      obtain ⟨h1, news, h2, h3, h4⟩ := loadFiles_spec loaded fs mi mi' ha' h
-      refine ⟨h1, news, h2, h3, ?_⟩
+      obtain ⟨h1, hp, news, h2, h3, h4⟩ := loadFiles_spec loaded fs mi mi' ha' h
+      refine ⟨h1, hp, news, h2, h3, ?_⟩
       intro x
       rw [h4 x]
       simp only [List.map_cons, List.mem_cons]
@@ -132,8 +135,8 @@ theorem loadFiles_spec (loaded : List ID) : ∀ (fs : List (ID × Option IndexFi
         have hf : f = content id := ha id f (List.mem_cons_self ..)
         obtain ⟨wf, hfin, hids, hp⟩ := decodeIndex_spec hd
         have hdec : Decoded content idx := ⟨wf, hfin, id, hids, fun e => by rw [← hf]; exact hp.mem_iff⟩
-        obtain ⟨h1, news, h2, h3, h4⟩ := loadFiles_spec loaded fs (mi.insert idx) mi' ha' h
-        refine ⟨h1, idx :: news, by rw [h2]; simp [MasterIndex.insert], ?_, ?_⟩
+        obtain ⟨h1, hp, news, h2, h3, h4⟩ := loadFiles_spec loaded fs (mi.insert idx) mi' ha' h
+        refine ⟨h1, hp, idx :: news, by rw [h2]; simp [MasterIndex.insert], ?_, ?_⟩
         · intro i hi
           rcases List.mem_cons.mp hi with rfl | hi
           · exact hdec
@@ -226,13 +229,13 @@ theorem load_spec {mi mi' : MasterIndex} {fs : List (ID × Option IndexFile)} (h
           rw [List.filter_eq_nil_iff]
           intro i hi
           rw [hc.rest i hi]; simp
-        refine ⟨⟨hc.wf, hc.final, hnil, hc.ent⟩, rfl, ?_⟩
+        refine ⟨⟨hc.wf, hc.final, hnil, hc.ent, rfl⟩, rfl, ?_⟩
         intro id hid
         simp only [List.any_eq_true, Bool.not_eq_true', not_exists, not_and] at hall
         have := hall id hid
         simpa using this
   obtain ⟨hc0, hl, hsub⟩ := hprep'
-  obtain ⟨hfirst, news, hrest, hdec, hnews⟩ := loadFiles_spec content loaded fs mi0 mi1 ha hload
+  obtain ⟨hfirst, hpend, news, hrest, hdec, hnews⟩ := loadFiles_spec content loaded fs mi0 mi1 ha hload
   simp only [MasterIndex.mergeFinalIndexes, bind_eq_ok] at hmerge
   obtain ⟨⟨first', keep⟩, hml, hmi'⟩ := hmerge
   simp only [Out.ok.injEq] at hmi'
@@ -264,7 +267,7 @@ theorem load_spec {mi mi' : MasterIndex} {fs : List (ID × Option IndexFile)} (h
       · obtain ⟨id', hids, hsrc⟩ := (hdec i hi).src
         rw [hids] at a; simp at a; subst a
         exact Or.inr ⟨i, hi, (hsrc e).mpr he⟩
-  refine ⟨⟨wf', by rw [hf']; exact hc0.final, hk, hentset⟩, hidset, ?_⟩
+  refine ⟨⟨wf', by rw [hf']; exact hc0.final, hk, hentset, by simp only; rw [hpend]; exact hc0.pending⟩, hidset, ?_⟩
   intro e
   rw [hentset e]
   constructor
@@ -422,7 +425,8 @@ theorem lookupSize_consistent {content : ID → IndexFile} {mi : MasterIndex} (h
     (n : Nat) : n ∈ mi.lookupSizeCandidates h ↔ ∃ e, e ∈ entries mi.first ∧ e.handle = h ∧ n = pbSize e := by
   have hcand : mi.lookupSizeCandidates h = mi.first.lookupSizeCandidates h := by
     unfold MasterIndex.lookupSizeCandidates
-    simp only [MasterIndex.idx, hc.rest, List.find?_cons, List.find?_nil]
+    have hp : pendingSize mi.pending h = none := by rw [hc.pending]; rfl
+    simp only [hp, MasterIndex.idx, hc.rest, List.find?_cons, List.find?_nil]
     cases hh : mi.first.has h with
     | true => rfl
     | false =>
@@ -460,6 +464,45 @@ theorem lookupSize_consistent {content : ID → IndexFile} {mi : MasterIndex} (h
       have : h.type = .tree := by rw [← hh'.1, ht]
       rw [this]
       exact ⟨v, ⟨hvm, by rw [← hi, hh'.2]; simp⟩, (pbSize_of_resolve hr).symm⟩
+
+/-- announcing a pending blob (`AddPending`, e.g. by an upload that is aborted later) keeps the state
+    reloadable: the next load forgets it (`clearPendingBlobs`) -/
+theorem addPending_reloadable {content : ID → IndexFile} {mi : MasterIndex} (hr : Reloadable content mi)
+    (h : Handle) (size : Nat) : Reloadable content (mi.addPending h size).1 := by
+  unfold MasterIndex.addPending
+  split
+  · exact hr
+  · split
+    · exact hr
+    · exact ⟨hr.wf, hr.final, hr.ent, hr.rest⟩
+
+/-- **incremental_eq_fresh for `LookupSize`**: after a reload from any reloadable state — pending
+    blobs of aborted uploads included — `LookupSize` has exactly the candidates of a fresh load: the
+    sizes of the entries the index files record for the blob (none for a blob in no index file) -/
+theorem lookupSize_reload_eq_fresh {content : ID → IndexFile} {mi mi1 mi2 : MasterIndex} {files : List (ID × IndexFile)}
+    (hc : Reloadable content mi) (hf : Functional files content)
+    (h1 : mi.load (listing files) = .ok mi1) (h2 : MasterIndex.new.load (listing files) = .ok mi2) (bh : Handle)
+    (n : Nat) :
+    (n ∈ mi1.lookupSizeCandidates bh ↔ n ∈ mi2.lookupSizeCandidates bh) ∧
+    (n ∈ mi1.lookupSizeCandidates bh ↔ ∃ e, e ∈ allEntries files ∧ e.handle = bh ∧ n = pbSize e) := by
+  obtain ⟨c1, _, e1⟩ := load_spec content hc (agrees_listing hf) h1
+  obtain ⟨c2, _, e2⟩ := load_spec content (new_consistent content).reloadable (agrees_listing hf) h2
+  have k1 : n ∈ mi1.lookupSizeCandidates bh ↔ ∃ e, e ∈ allEntries files ∧ e.handle = bh ∧ n = pbSize e := by
+    rw [lookupSize_consistent c1]
+    constructor
+    · rintro ⟨e, he, r⟩; exact ⟨e, (mem_allEntries hf e).mpr ((e1 e).mp he), r⟩
+    · rintro ⟨e, he, r⟩; exact ⟨e, (e1 e).mpr ((mem_allEntries hf e).mp he), r⟩
+  have k2 : n ∈ mi2.lookupSizeCandidates bh ↔ ∃ e, e ∈ allEntries files ∧ e.handle = bh ∧ n = pbSize e := by
+    rw [lookupSize_consistent c2]
+    constructor
+    · rintro ⟨e, he, r⟩; exact ⟨e, (mem_allEntries hf e).mpr ((e2 e).mp he), r⟩
+    · rintro ⟨e, he, r⟩; exact ⟨e, (e2 e).mpr ((mem_allEntries hf e).mp he), r⟩
+  exact ⟨by rw [k1, k2], k1⟩
+
+/-- non-vacuity: a pending blob is reported by `LookupSize` before, and forgotten after a reload -/
+example : ∃ mi, ((MasterIndex.new.addPending ⟨.data, [9]⟩ 35).1.lookupSizeCandidates ⟨.data, [9]⟩ = [35]) ∧
+    (MasterIndex.new.addPending ⟨.data, [9]⟩ 35).1.load [] = .ok mi ∧ mi.lookupSizeCandidates ⟨.data, [9]⟩ = [] :=
+  ⟨_, rfl, rfl, rfl⟩
 
 /-- `MergeFinalIndexes` only appends to the maps of `idx[0]`: positions handed out by
     `blobIndex` (C48) never change -/
